@@ -276,7 +276,7 @@ class C03(Sim):
             return {"c": c, "op": r.choice(["drop_connectivity", "drop_connectivity", "drop_flip_sort"])}
         if c == "boundary" and r.chance(0.25):
             # other library code that reads the connectivity (attribute computations): a state perturber, never judged itself
-            return {"c": c, "op": r.choice(["bg_faces_on_boundary", "bg_cell_volume", "bg_cell_barycenter", "bg_str"])}
+            return {"c": c, "op": r.choice(["bg_faces_on_boundary", "bg_cell_volume", "bg_cell_barycenter", "bg_str", "bg_v2v", "bg_v2e", "bg_v2f"])}
         if c == "boundary":
             return {"c": c, "op": r.choice(["enable_boundary", "standalone_boundary", "enable_boundary"] + (["enable_boundary_other"] if self.other is not None else []))}
         qs = [q for q in sorted(Q) if FAMILY[q] == c and q not in cfg["ops_off"]] or [q for q in sorted(Q) if FAMILY[q] == c]
@@ -456,6 +456,9 @@ class C03(Sim):
             fn = {"bg_faces_on_boundary": lambda: M.attributes.cell_faces_on_boundary(mesh, persistent=False),
                   "bg_cell_volume": lambda: M.attributes.cell_volume(mesh, persistent=False),
                   "bg_cell_barycenter": lambda: M.attributes.cell_barycenter(mesh, persistent=False),
+                  "bg_v2v": lambda: mesh.connectivity.vertex_to_vertices(0),   # the vertex / edge / face level tables of the same object
+                  "bg_v2e": lambda: mesh.connectivity.vertex_to_edges(0),      # (inherited from the surface / polyline connectivity)
+                  "bg_v2f": lambda: mesh.connectivity.vertex_to_faces(0),
                   "bg_str": lambda: str(mesh)}[op]
             o = call(fn)
             self.probes["background_library_call"] += 1
